@@ -12,6 +12,7 @@ Actions (plain and generator handlers):
   ['flush']                   self.flush()   (nested flush)
   ['raise'] / ['raise','base'] raise Boom(Exception) / BoomBase(BaseException)
   ['ret', tag]                return a unique non-None value (ends the body)
+  ['retfire', evspec]         return self.fire(event): the Value of a nested event (ends the body)
   ['retnone']                 return None
   ['retlit', v] / ['yieldlit', v]  return / yield the literal v (falsy but non-None values: 0, False, '', 0.0)
   ['stopmgr', code]           self.stop(code)          (C08)
@@ -236,6 +237,14 @@ class World:
             tag = 'v%d.%d.%s' % (uid, hid, act[1])
             self.L('P', uid, hid, tag)
             return ('ret', tag)
+        elif k == 'retfire':
+            # the nested-value idiom: return the Value of an event fired by this handler (tests/core/test_value.py)
+            if self.nuid >= self.prog.get('max_events', 600):
+                return ('ret', None)
+            e, cu = self.fire(act[1], parent=uid, by=hid, target=comp)
+            fired.append(cu)
+            self.L('PV', uid, hid, cu)
+            return ('retlit', e.value)
         elif k == 'retnone':
             return ('ret', None)
         elif k == 'retlit':
